@@ -125,6 +125,8 @@ type Path struct {
 	initRunning *ssa.Package
 	afterFuncs  map[Ptr]*afterFunc
 	tokens      []tokenRec
+	lastInstr   ssa.Instruction
+	lastFrame   *frame
 }
 
 type spawnRec struct {
@@ -618,7 +620,15 @@ func (p *Path) handleTop(th *Thread, r interface{}) {
 	case engineError:
 		p.finish(PathResult{Kind: "error", Msg: string(x)})
 	default:
-		p.finish(PathResult{Kind: "error", Msg: fmt.Sprintf("engine crash: %v\n%s", r, debug.Stack())})
+		where := ""
+		if p.lastInstr != nil && p.lastFrame != nil {
+			where = fmt.Sprintf(" at %s in %s: %v", p.lastFrame.pos(p.lastInstr), p.lastFrame.fn, p.lastInstr)
+		}
+		st := string(debug.Stack())
+		if len(st) > 1500 {
+			st = st[:1500]
+		}
+		p.finish(PathResult{Kind: "error", Msg: fmt.Sprintf("engine crash: %v%s\n%s", r, where, st)})
 	}
 }
 
